@@ -25,6 +25,12 @@ def uniform01 (t : Tape) : Rat × Tape :=
 /-- `np.random.uniform(0, 1)` in the out-of-domain stream (finding K4) ↦ [0,1) -/
 def uniform01Closed (t : Tape) : Rat × Tape := uniform t
 
+/-- `np.random.uniform(lo, hi)` for any other bounds (`BroadcastingState.reset` draws `uniform(-1, 1)`) ↦
+`lo + (hi − lo)·(v mod 1024)/1024 ∈ [lo, hi)`, numpy's range (`harness/oracle.py: Tape.uniform`) -/
+def uniformLH (lo hi : Rat) (t : Tape) : Rat × Tape :=
+  let (v, t') := pop t
+  (lo + (hi - lo) * mkRat (v % 1024 : Nat) 1024, t')
+
 /-- `np.random.randint(lo, hi)` ↦ lo + v mod (hi − lo)   (requires lo < hi) -/
 def randint (lo hi : Int) (t : Tape) : Int × Tape :=
   let (v, t') := pop t
